@@ -260,6 +260,11 @@ def streams(ctx):
     for plen in range(0, 9001 if ctx.thorough else 4097):
         st = message(3, plen) + message(1, 1)
         out.append((f"len{plen}", st, sorted({0, 16, 16 + plen // 2, 16 + plen, len(st)}), False))
+    # payloads around the multiples of 64 KiB (a reader that fetches a large payload in pieces), followed by a short message
+    for k in ((1, 2, 3) if not ctx.thorough else (1, 2, 3, 4, 8, 16)):
+        for plen in (k * 65536 - 1, k * 65536, k * 65536 + 1):
+            st = message(3, plen) + message(1, 1)
+            out.append((f"len{plen}", st, sorted({0, 16, 16 + 65535, 16 + 65536, 16 + plen - 65536, 16 + plen, len(st)}), False))
     # long streams: cut positions restricted to a window around every boundary plus a 509-byte grid
     win = 17 if ctx.thorough else 3
     longs = [(255, 256, 4095, 4096, 0, 1, 255, 17)] if not ctx.thorough else [
